@@ -1043,6 +1043,8 @@ class Machine:
             nm = v.name if isinstance(v, Atom) else repr(v)
             return Atom('%s(%s)' % (kind, nm), to)
         if kind == 'Transmute':
+            if isinstance(v, (Slice, Str)) and to.get('k') in ('ref', 'ptr') and (to.get('to') or {}).get('k') in ('slice', 'str'):
+                return v          # a fat pointer re-typed as another fat pointer to the same data (Box<[T]> / NonNull<[T]> / *const [T])
             return Atom('transmute(%r)' % (v,), to)
         return Atom(fresh('cast:' + kind), to)
 
